@@ -26,6 +26,8 @@ type sess struct {
 	out  strings.Builder
 	opts repl.Options
 	cfg  sessCfg
+	// noContext: implEval leaves State.Context nil (library use of State.Eval)
+	noContext bool
 }
 
 // stepRec is the observation record of one input.
